@@ -4,8 +4,11 @@ import os
 
 def run(ctx):
     t = ctx.tier
-    ctx.rule = ("packets: TLC enumerates the packet matrix (every kind x optional trailing values x value classes; all 65536 user-control event "
-                "types) with layout, size and dispatch kind; histories: TLC enumerates every behaviour of RtmpTxn (peer items first, then A's calls "
+    ctx.rule = ("packets: TLC enumerates the packet matrix (every kind x optional trailing values x value classes - every string field empty / one byte / "
+                "the constructor's preset / other, every number 0 / preset / other, every value slot null / undefined / object / absent; all 65536 "
+                "user-control event types) with layout, size, dispatch kind and field values; each packet is marshalled, unmarshalled into the "
+                "constructor's packet and into a blank one, and sent to a peer that decodes it by DecodeMessage and by ExpectPacket, comparing every "
+                "field, Size() and the re-marshalled payload; histories: TLC enumerates every behaviour of RtmpTxn (peer items first, then A's calls "
                 "WritePacket / ReadMessage+DecodeMessage / ExpectPacket / ExpectMessage) within the cfg bounds; each is replayed into real "
                 "rtmp.Protocol endpoints comparing outcome and the outstanding-request table after every step; distinct = distinct JSON case")
     ctx.exhaustive = True
@@ -15,6 +18,12 @@ def run(ctx):
     ctx.sany("rtmp", "RtmpTxn")
     ctx.tlc("rtmp", "MC_RtmpTxn", "MC_Txn.cfg", coverage=(t == "thorough"))
     ctx.tlc("rtmp", "MC_RtmpTxn", "MC_Txn_deviation.cfg", expect_violation="MatchOnce", count_states=False)
+    # codec part: the journey of one packet (RtmpCodec) with the byte-level decoder of the specification
+    ctx.sany("rtmp", "RtmpCodec")
+    ctx.tlc("rtmp", "MC_RtmpCodec", "MC_Codec.cfg", coverage=(t == "thorough"))
+    devs = ["emptyabsent"] if t == "quick" else ["emptyabsent", "trustpreset", "zerokeeps"]
+    for dev in devs:
+        ctx.tlc("rtmp", "MC_RtmpCodec", "MC_Codec_dev_%s.cfg" % dev, expect_violation="FieldsSurvive", count_states=False)
     pk = os.path.join(ctx.out, "packets.ndjson")
     ctx.tlc("rtmp", "Gen_RtmpPacket", "Gen_Packet.%s.cfg" % t, cases_to=pk, timeout=900)
     res = ctx.replay("packets", pk)
